@@ -11,13 +11,13 @@ RULE = ("random images of 1-3 D x 11 numeric dtypes (floats as exact quarter-int
         "close_holes. Each output is compared with the extracted Coq model and judged by the extracted Coq specification. "
         "thorough: all binary images <=3x4 for close_holes (cross, box) and hitmiss x all 3x3 templates sampled + all 1x3/3x1 "
         "templates. Non-trivial: image not constant")
-NOT_PROVED = ["regmax/regmin and close_holes: the stack-based floods are executable models compared with executable Coq "
-              "specifications (plateau / background components via the proved quick-find closure) on every generated and "
-              "exhaustive case; flood = reachability is not yet a Coq theorem",
-              "hitmiss: the border-skipping slack loop is modelled in closed form; the shuffled early-exit order is irrelevant "
-              "to the result and not modelled",
-              "regional extrema agree with the plateau specification for symmetric neighbourhoods (cross, box); for arbitrary "
-              "elements only the model is compared"]
+NOT_PROVED = ["regmax/regmin are characterised by theorems for SYMMETRIC neighbourhoods (subset of the local extrema, plateau-closed, "
+              "no regional extremum discarded: the greatest such set); for asymmetric neighbourhoods only the executable model is "
+              "compared with the implementation",
+              "the executable plateau / border-component specifications (quick-find closure) are used for the correspondence; "
+              "close_holes is proved against directed reachability (close_holes_correct)",
+              "hitmiss: the border-skipping slack loop is modelled in closed form; the shuffled early-exit order is irrelevant to the "
+              "result and not modelled"]
 BUDGET_S = {"quick": 100, "thorough": 1200}
 DTYPES = ["uint8", "int8", "uint16", "int16", "uint32", "int32", "uint64", "int64", "float32", "float64", "bool"]
 
